@@ -353,6 +353,53 @@ func main() {
 		}
 		c.NonTrivial()
 	})
+	// short segments (tens of metres and less, where a flat-earth shortcut is tempting), also across the antimeridian,
+	// where the two ends of a segment have longitudes of opposite sign
+	r.Explore("short-segments", "lines of 12 vertices 0.4 m .. 400 m apart x 4 directions x 3 anchors (mid-latitude, high latitude, astride the antimeridian) x 11 fractions of the length: PointAtDistanceAlongLine lies on the right segment at the right path length (own great-circle formula), bearing = Bearing of that segment", mc.Opts{MaxDev: -1}, func(c *mc.Ctx) {
+		step := []float64{4e-6, 4e-5, 4e-4, 4e-3}[c.Choose(4)] // degrees
+		dir := [][2]float64{{1, 0}, {0, 1}, {1, 0.5}, {-1, 0.25}}[c.Choose(4)]
+		anchor := []orb.Point{{10, 45}, {-70, 81}, {180, 20}}[c.Choose(3)]
+		ls := make(orb.LineString, 12)
+		for i := range ls {
+			t := float64(i) - 5.5 // the line is centred on the anchor, so the antimeridian anchor is crossed mid-way
+			lon := anchor[0] + t*step*dir[0]
+			if lon > 180 {
+				lon -= 360
+			}
+			ls[i] = orb.Point{lon, anchor[1] + t*step*dir[1]}
+		}
+		seg := make([]float64, len(ls)-1)
+		total := 0.0
+		for i := range seg {
+			seg[i] = gc(ls[i], ls[i+1])
+			total += seg[i]
+		}
+		for _, f := range []float64{0.01, 0.1, 0.3, 0.45, 0.49, 0.5, 0.51, 0.55, 0.7, 0.9, 0.99} {
+			d := f * total
+			q, b := geo.PointAtDistanceAlongLine(ls.Clone(), d)
+			acc, k := 0.0, len(seg)-1
+			for i := range seg {
+				if d-acc < seg[i] {
+					k = i
+					break
+				}
+				acc += seg[i]
+			}
+			tol := 1e-4 + 1e-6*total
+			if along := acc + gc(ls[k], q); math.Abs(along-d) > tol {
+				c.Failf("along-line", "PointAtDistanceAlongLine(%v, %v) = %v lies %v m along the line (segment %d of %v m)", ls, d, q, along, k, seg[k])
+				continue
+			}
+			if off := gc(ls[k], q) + gc(q, ls[k+1]) - seg[k]; math.Abs(off) > tol {
+				c.Failf("along-line", "PointAtDistanceAlongLine(%v, %v) = %v is not on segment %d (detour %v m)", ls, d, q, k, off)
+				continue
+			}
+			if want := geo.Bearing(ls[k], ls[k+1]); b != want {
+				c.Failf("along-line", "PointAtDistanceAlongLine(%v, %v): bearing %v, segment %d has bearing %v", ls, d, b, k, want)
+			}
+		}
+		c.NonTrivial()
+	})
 	sizes := []float64{0.001, 0.5, 1, 3}
 	r.Explore("box-area", "boxes of 4 sizes anchored at every lattice point (clipped to the sphere): Area(bound) = R^2 x width x (sin top - sin bottom); ring / polygon / bound spellings agree", mc.Opts{MaxDev: -1, Split: 1}, func(c *mc.Ctx) {
 		p := pts[c.Choose(len(pts))]
